@@ -120,7 +120,7 @@ mod h {
         kani::cover!(!ok);
     }
     #[kani::proof] #[kani::unwind(5)] fn e1304_two_windows_in_one_reload() { e1304([any_tw(), any_tw()], any_tw(), false) }
-    // (the split shape - one window in each of two reloads - exhausts 30 GB in CBMC and is not registered)
+    #[kani::proof] #[kani::unwind(5)] fn e1304_one_window_in_each_of_two_reloads() { e1304([any_tw(), any_tw()], any_tw(), true) }
     /// no reloads / reloads without times: accepted (two constant shapes: a symbolic presence of the list does not finish in CBMC)
     #[kani::proof] #[kani::unwind(5)]
     fn e1304_no_reloads() {
